@@ -66,13 +66,24 @@ def check(run):
     r = run.tlc_mc("FilterWalkMC", "FilterWalkMC_pinned.cfg", label="sanity: pinned patternWithoutTrailingGlob (strips /** and /*) must be rejected", expect_error=True)
     if "PruningUnobservable is violated" not in r["out"]:
         raise Inconclusive("FilterWalkMC sanity configuration was not rejected: the model is vacuous")
-    trace, st = run.drive("filter")
+    # model -> code: TLC writes every pattern list of the model (on the model's own tree) with the ALGORITHM model's output
+    from vlib import model_disagreements, gate_model, strip_model
+    gen = os.path.join(run.work, "gen-filter")
+    os.makedirs(gen, exist_ok=True)
+    for cfg in ("FilterWalkMC_gen.cfg", "FilterWalkMC_gen_exc.cfg", "FilterWalkMC_gen_pairs.cfg", "FilterWalkMC_gen_pairs_exc.cfg"):
+        run.tlc_mc("FilterWalkMC", cfg, workers=1, label="TLC enumerates the pattern lists of FilterWalkMC with the algorithm model's output (%s)" % cfg, env=dict(VERIF_GEN_DIR=gen))
+    n = len([f for f in os.listdir(gen) if f.startswith("filtercase_")])
+    if n != 7308:
+        raise Inconclusive("FilterWalkMC case generation wrote %d files, 7308 expected" % n)
+    trace, st = run.drive("filter", env=dict(VERIF_GEN_DIR=gen))
     tr = run.tlc_trace("WalkTrace", trace)
-    tr["failed"] = [f for f in tr["failed"] if any(c.startswith("C10.") for c in f["clauses"])]
+    md = model_disagreements(tr)
+    tr["failed"] = strip_model(tr, "C10.")
     selftest_corrupt(run, "WalkTrace", trace, _drop, name="drop the last reported entry of a filtered walk")
     selftest_corrupt(run, "WalkTrace", trace, _extra, name="report a hidden top-level entry")
     selftest_corrupt(run, "WalkTrace", trace, _no_rewrite, name="report an entry without the map function's stat rewrite")
     fails = confirm_by_replay(run, "filter", "WalkTrace", tr, signature_fn=_sig, text_fn=_text)
+    gate_model(md, fails)
     return finish(run, "model_checking", fails, assumptions=ASSUME)
 
 
